@@ -297,6 +297,9 @@ traversal:
 	p.next = parent
 	parent.signals = append(parent.signals, p.signals...)
 	p.signals = nil
+	if len(p.clients) > 0 && parent.clients == nil {
+		parent.clients = make(map[clientPath][]clientAndPromise)
+	}
 	for path, cp := range p.clients {
 		parent.clients[path] = append(parent.clients[path], cp...)
 	}
